@@ -31,6 +31,7 @@ class RoundTrip(Oracle):
             "p_between": 0.3,
             "mask": rng.choice(["any", "any", "first2", "all"]),
             "bundle_defaults": rng.random() < 0.7,
+            "steer_f11b": rng.random() < 0.85,
         }
 
     def swarm(self, rng):
@@ -99,7 +100,28 @@ class RoundTrip(Oracle):
             raise Violation(self.prop, "round-trip", cause, detail, self.facts(d, d2))
 
     def facts(self, d, d2):
-        return {}
+        """Facts for known-finding attribution: bundles whose printed identifier does not
+        denote its URI in the document's own scope (F11b)."""
+        from .c03 import table, default_uri
+        bad = []
+        try:
+            dt = table(d)
+            dt.update(pools.RESERVED)
+            dd = default_uri(d)
+            printed = {}
+            for b in d.bundles:
+                q = b.identifier
+                p = q.namespace.prefix
+                bound = dt.get(p) if p else dd
+                if bound != q.namespace.uri:
+                    bad.append(str(q))
+                printed.setdefault(str(q), set()).add(q.uri)
+            for k, us in printed.items():
+                if len(us) > 1 and k not in bad:
+                    bad.append(k)
+        except Exception:
+            pass
+        return {"bundle_id_scope_mismatch": bad}
 
 
 class C01(RoundTrip):
